@@ -95,6 +95,13 @@ def gcirc(ra1, dec1, ra2, dec2, units=2):
     https://en.wikipedia.org/wiki/Great-circle_distance
     """
     #
+    # Work in double precision whatever the storage type of the input
+    # (float32, integers, lists): the differences below would wrap for
+    # unsigned integers and lose precision for float32 and short integers.
+    #
+    ra1, dec1, ra2, dec2 = [np.asanyarray(c, dtype=np.float64)
+                            for c in (ra1, dec1, ra2, dec2)]
+    #
     # The coordinate differences are taken in the units of the input, where
     # the subtraction of nearby values is exact, and only then converted to
     # radians.  Converting first would round each coordinate to about
